@@ -20,8 +20,21 @@ Scen == {s \in [mode : {"auto", "explicit"}, kind : {"ins", "upd", "del", "upsh"
            /\ s.repfails > 0 => s.failAt >= 3
            /\ s.rows = 0 => (s.reg = "ok" /\ s.failAt \in {0, 2} /\ s.repfails = 0)}
 
+\* thorough: database faults also in the two-statement transactions, fault positions up to 12
+ScenT == {s \in [mode : {"auto", "explicit"}, kind : {"ins", "upd", "del", "upsh", "upsm"}, rows : 0..2,
+                reg : {"ok", "conflict", "fail", "neterr"}, failAt : 0..12, repfails : {0, 1, 2, 5},
+                then : {"none", "upd0", "del0"}] :
+           /\ s.then # "none" => (s.mode = "explicit" /\ s.reg = "ok" /\ s.repfails = 0)
+           /\ s.then = "none" => s.failAt <= 9
+           /\ s.kind \in {"ins", "upsh", "upsm"} => s.rows >= 1
+           /\ s.kind \in {"upsh", "upsm"} => s.rows = 1
+           /\ s.reg # "ok" => (s.failAt = 0 /\ s.repfails = 0)
+           /\ s.repfails > 0 => s.failAt >= 3
+           /\ s.rows = 0 => (s.reg = "ok" /\ s.failAt \in {0, 2} /\ s.repfails = 0)}
+
 VARIABLE sc
 GenInit == sc \in Scen
+GenInitT == sc \in ScenT
 GenNext == UNCHANGED sc
 ScenFile == IOEnv.SCEN_FILE
 Dump ==
